@@ -250,7 +250,7 @@ def checkPure (ws : List String) (impl : String) : String :=
 
 /-- the order in which the harness writes the exported funds into the genesis it imports -/
 def genKey (g : GenFunds) : String :=
-  s!"{g.to}<{showSfx (createRecordSuffix g.unacc)}/{showCoins (Coins.canon g.coins)}/{boolStr g.declined}"
+  s!"{g.to}<{showSfx (createRecordSuffix g.unacc)}/{showCoins (Coins.canon g.coins)}/{boolStr g.declined}/{showAddrs g.unacc}"
 
 def genOrder (l : List GenFunds) : List GenFunds :=
   l.mergeSort fun a b => decide (genKey a ≤ genKey b)
